@@ -147,6 +147,9 @@ func vSetErrGlobals() {
 // vMarshal stands for a user InterfaceMarshalFunc whose output is valid JSON (C01 excludes
 // custom marshal functions that produce invalid fragments) or an error.
 func vMarshal(v interface{}) ([]byte, error) {
+	if v == nil {
+		return []byte(`null`), nil
+	}
 	switch zzverif.Choice(5) {
 	case 0:
 		return []byte(`null`), nil
